@@ -392,7 +392,7 @@ theorem exec_ok_of_readable (e : Env) (s : Seq) (h : Readable s) (op : PubOp)
   | setChannel c => exact totR (setChannel c)
   | cutoff m r => exact totA (cutoff m r)
   | quantise st =>
-    exact onAbs_readable h _ (quantise_total_any (fun hn => hst (by simp [stepsUsed, hn])))
+    exact onAbs_readable h _ (quantiseS_total_any (fun hn => hst (by simp [stepsUsed, hn])))
   | qnl v dne => exact onAbs_readable h _ (C06.total _ _ _)
   | quantiseAndNormalise => exact qan_readable e (fun hn => hst (by simp [stepsUsed, hn])) h
   | concat o => exact totR (fun r => concatenate r o)
@@ -568,7 +568,7 @@ theorem effect_visible (s : Seq) (h : Inv s) (st : Stage) (out : List Msg)
 
 def absT (g : List Msg → List Msg) : Stage := ⟨.abs, fun a => .ok (g a)⟩
 def relT (g : List Msg → List Msg) : Stage := ⟨.rel, fun r => .ok (g r)⟩
-def quantStage (e : Env) (st : Option (List Int)) : Stage := ⟨.abs, quantise (st.getD e.defSteps)⟩
+def quantStage (e : Env) (st : Option (List Int)) : Stage := ⟨.abs, quantiseS (st.getD e.defSteps)⟩
 def qnlStage (e : Env) (v : Option (List Int)) (dne : Bool) : Stage :=
   ⟨.abs, quantiseNoteLengths (v.getD e.defValues) e.ppqn dne⟩
 
